@@ -215,19 +215,19 @@ PROPS['C04'] = dict(
                         'np.linalg.solve is a parameter of the model: ANY solution of the assembled system satisfies the ODEs'])
 
 EQV_ALL = ['Axis', 'R1d', 'GradB', 'R2', 'Mercier', 'GGB', 'R3', 'RSing']
-EQV_PARTIAL = ['the equivariance theorems are stated for the formula stages (every generated definition) under hypotheses on the operators (D commutes with the re-indexing up to the sign s3, sums scale by kappa, ...): that the spectral matrix satisfies them follows from C20Spec (circulant, antisymmetric) but the instantiation is not yet a Lean theorem',
+EQV_PARTIAL = ['the equivariance theorems are stated for the formula stages (every generated definition); the instances for the concrete periodic grid and the concrete spectral matrix (cyclic shift, toroidal reversal, k-fold repetition) are theorems of QscProofs/EqvGrid.lean; only fourier_minimum enters as a parameter with stated homogeneity/invariance hypotheses',
                'equality of the two COMPUTED Newton solutions / linear solves needs local uniqueness and convergence: measured by the oracle (1e-7), not proved']
 
 PROPS['C05'] = dict(
-    lean=['QscProofs.Eqv', 'QscProofs.C20Spec', 'QscProofs.C03Axis'], theorems=eqv_theorems(EQV_ALL) + ['C20Spec.toep_circulant', 'C03Axis.f0_periodic'],
+    lean=['QscProofs.Eqv', 'QscProofs.C20Spec', 'QscProofs.C03Axis', 'QscProofs.EqvGrid'], theorems=eqv_theorems(EQV_ALL) + ['C20Spec.toep_circulant', 'C03Axis.f0_periodic', 'EqvGrid.toep_shift', 'EqvGrid.gridOps_lawful', 'EqvGrid.curvature_shift', 'EqvGrid.X2c_shift', 'EqvGrid.DMerc_times_r2_shift'],
     gen=EQV_ALL, eqv=EQV_ALL, corr=corr_generated(['Axis', 'R1d', 'R2', 'R3']), oracle=oracle_multi(oracles.oracle_C05),
     rule=RULE, partial=EQV_PARTIAL + ['phi, varphi and (for helicity != 0) the *_untwisted coefficients are coordinate-dependent: they follow explicit laws (checked by the oracle), not a cyclic shift'])
 PROPS['C06'] = dict(
-    lean=['QscProofs.Eqv', 'QscProofs.C13'], theorems=eqv_theorems(EQV_ALL) + ['C13.counter_mul_four'],
+    lean=['QscProofs.Eqv', 'QscProofs.C13', 'QscProofs.EqvGrid'], theorems=eqv_theorems(EQV_ALL) + ['C13.counter_mul_four', 'EqvGrid.toep_rep', 'EqvGrid.sum_comp_modNat', 'EqvGrid.linearMap_eq_zero_of_modes', 'EqvGrid.curvature_repetition', 'EqvGrid.X2c_repetition', 'EqvGrid.DMerc_times_r2_repetition'],
     gen=EQV_ALL, eqv=EQV_ALL, corr=corr_generated(['Axis', 'R1d', 'R2']), oracle=oracle_multi(oracles.oracle_C06, count=6),
-    rule=RULE + '; nfp = k compared with nfp = 1 at k*nphi for odd k', partial=EQV_PARTIAL + ['the hypothesis that the spectral matrix of the k*n grid restricted to n-periodic data equals the n-grid matrix (D_comp for pi = mod) is assumed, checked numerically'])
+    rule=RULE + '; nfp = k compared with nfp = 1 at k*nphi for odd k', partial=EQV_PARTIAL)
 PROPS['C07'] = dict(
-    lean=['QscProofs.Eqv', 'QscProofs.C15', 'QscProofs.C13', 'QscProofs.C20Spec'], theorems=eqv_theorems(EQV_ALL) + ['C15.lasym_iff', 'C15.lasym_false_iff', 'C13.counter_flipZ', 'C13.counter_reverse', 'C20Spec.toep_antisymm'],
+    lean=['QscProofs.Eqv', 'QscProofs.C15', 'QscProofs.C13', 'QscProofs.C20Spec', 'QscProofs.EqvGrid'], theorems=eqv_theorems(EQV_ALL) + ['EqvGrid.toep_neg', 'EqvGrid.curvature_reversal', 'EqvGrid.X2c_reversal', 'EqvGrid.Z2c_reversal', 'EqvGrid.d2_l_d_phi2_reversal', 'EqvGrid.DMerc_times_r2_reversal', 'C15.lasym_iff', 'C15.lasym_false_iff', 'C13.counter_flipZ', 'C13.counter_reverse', 'C20Spec.toep_antisymm'],
     gen=EQV_ALL, eqv=EQV_ALL, corr=corr_merge(corr_generated(['Axis', 'R1d', 'GradB', 'R2', 'Mercier', 'GGB', 'R3', 'RSing']), corr_hand_kernels(['vmec'])),
     oracle=oracle_multi(oracles.oracle_C07), rule=RULE, partial=EQV_PARTIAL)
 PROPS['C08'] = dict(
